@@ -836,6 +836,8 @@ class Walker:
         return [("val", Const(node.value), st)]
 
     def e_Name(self, node, st):
+        if node.id in self.sticky and node.id in self.assumptions:
+            return [("val", self.assumptions[node.id], st)]
         if node.id in st.env:
             return [("val", st.env[node.id], st)]
         if node.id in st.facts:
